@@ -227,6 +227,10 @@ type World struct {
 	OnCrash      func(w *World) *Violation
 	PanicSig     func(w *World) map[string]string // signature of a recovered worker panic (known-finding matching)
 	PanicProp    string
+	// ConnectedHook, when set, is asked by quiet stages in addition to the built-in
+	// test "every live informer of the process has an open watch" (scenarios that run
+	// an informer factory of their own)
+	ConnectedHook func() bool
 	// InlineUnsyncedHooks: see HookTransport.RoundTrip
 	InlineUnsyncedHooks bool
 	Stages              []Stage
